@@ -144,7 +144,10 @@ def install(gate, cfg):
         gate('open')
         return FileProxy(builtins.open(*a, **k))
 
-    RealLoader = cg.SourceFileLoader
+    # (the loader is a name the code generator imports; when it loads modules some other way the 'load' events are simply not
+    # in the trace, which the checks are told: cfg['loader_proxied'])
+    RealLoader = getattr(cg, 'SourceFileLoader', None)
+    cfg['loader_proxied'] = RealLoader is not None
 
     class LoaderProxy:
         def __init__(self, *a, **k):
@@ -166,7 +169,8 @@ def install(gate, cfg):
     cg.inspect = InspectProxy()
     cg.os = OsProxy()
     cg.open = open_proxy
-    cg.SourceFileLoader = LoaderProxy
+    if RealLoader is not None:
+        cg.SourceFileLoader = LoaderProxy
 
 
 def define(d, variant, k):
@@ -226,9 +230,19 @@ def main():
                 res.append([None, 'EXC:' + type(e).__name__])
         json.dump({'cookies': res}, builtins.open(sys.argv[2], 'w'), default=lambda o: {'object': type(o).__name__})
         return
-    out = {'steps': []}
+    out = {'steps': [], 'loader_proxied': cfg.get('loader_proxied', True)}
     for k, step in enumerate(cfg['steps']):
         cfg['forge_next'] = step.get('forge_mtime')
+        if step.get('drop_source'):
+            # somebody cleaned __pkts__/*.py but not __pkts__/__pycache__: the cached source goes, its bytecode stays (optionally
+            # recompiled as an unchecked-hash .pyc, which the interpreter uses without looking at the source at all)
+            src_p = os.path.join(d, '__pkts__', 'm_P.py')
+            if os.path.exists(src_p):
+                if step['drop_source'] == 'unchecked':
+                    import py_compile
+                    from importlib.util import cache_from_source
+                    py_compile.compile(src_p, cfile=cache_from_source(src_p), doraise=True, invalidation_mode=py_compile.PycInvalidationMode.UNCHECKED_HASH)
+                os.remove(src_p)
         before = cache_state(d)
         n0 = len(gate.log)
         rec = {'variant': step['variant'], 'before': before}
@@ -243,6 +257,7 @@ def main():
             rec['exc'] = type(e).__name__ + ': ' + str(e)[:200]
         rec['after'] = cache_state(d)
         rec['ops'] = gate.log[n0:]
+        rec['noload'] = not cfg.get('loader_proxied', True)
         out['steps'].append(rec)
     json.dump(out, builtins.open(sys.argv[2], 'w'), default=lambda o: {'object': type(o).__name__})
     if cfg.get('mode') == 'sched':
